@@ -139,12 +139,14 @@ def run_property(pid, tier="quick", replay=None, root=None, write_evidence=True)
         st = selftest(ctx, mod)
         results = mod.run(ctx)
         for r in results:
+            # a rule that no longer finds the sites confirmed by hand is neither a pass nor an alarm: it is
+            # reported as undecided (exit 2 unless another rule reports a violation, which is still shown)
             if len(r.instances) + len(r.undecided) < r.floor:
-                raise AnalysisBroken("rule %s matched %d instances, below the confirmed floor %d" %
-                                     (r.rule, len(r.instances), r.floor))
+                r.undecided.append("matched %d instances, below the confirmed floor %d (anchor code has changed shape)" %
+                                   (len(r.instances), r.floor))
             for a in r.anchors:
                 if not any(a in i.key for i in r.instances):
-                    raise AnalysisBroken("rule %s: confirmed anchor instance %r no longer matched" % (r.rule, a))
+                    r.undecided.append("confirmed anchor instance %r no longer matched" % a)
     except AnalysisBroken as e:
         print("ANALYSIS-BROKEN property=%s: %s" % (pid, e))
         return 2
